@@ -136,6 +136,7 @@ func (g *HistGen) ImportKeys() {
 			if keyFamily(e.KeyAlg) == "rsa" {
 				fp.P8 = Pick(g.R, []string{"null", "noparams"})
 			}
+			fp.V2 = g.R.Chance(1, 5)
 			g.P.Add(Op{K: "replace-art", Ent: e.ID, Arg: fp.JSON(), Label: "import-key"})
 			g.P.Meta["imported-key"] = "1"
 		}
